@@ -25,7 +25,7 @@ TECHNIQUE = "runtime monitoring: frame-coded forcing files + probing IBM plug-in
 LEVEL_TEXT = ("Real end-to-end runs over generated frame layouts (spacing 1-5 steps incl. spacing == dt and irregular, 3-12 frames, random partitions into files incl. one frame per "
               "file and files entered in the middle, start offsets on and between frames, forward and reversed, 0-2 scalar fields, float or packed). At every model step the "
               "velocity at 4 fractional steps and the scalar forcing are compared with the interpolation oracle; every read is checked to come from the file holding that frame. "
-              "The thorough tier adds all compositions of <= 6 frames into files x all start offsets x both directions for spacings in {1,2,3}.")
+              "The thorough tier adds all compositions of <= 7 frames into files x all start offsets x both directions for spacings in {1,2,3}.")
 LEVEL_NOTE = "Tolerance 2e-5 relative (float32 fields accumulate u += dU over up to 5 steps). Trusts the harness's layout oracle and netCDF4."
 RULE = ("case = one layout (frame positions in steps, file partition, start, stop, direction, scalars, packing). Non-trivial: the run passes at least one frame step after the "
         "start (a hand-over happens); distinct by (positions, partition, start, stop, direction).")
@@ -108,7 +108,7 @@ def gen_cases(tier: str, seed: int) -> list[dict[str, Any]]:
             k += 1
             cases.append(dict(P=P, files=files, S=S, E=E, reversed=rev, nscalars=1, packed=False, dt=600, salt=k))
     if tier == "thorough":
-        # exhaustive: all compositions of <= 6 frames into files x all start offsets x 2 directions, spacing in {1,2,3}
+        # exhaustive: all compositions of <= 7 frames into files x all start offsets x 2 directions, spacing in {1,2,3}
         for nfr in range(2, 8):
             for g in (1, 2, 3):
                 P = [g * i for i in range(nfr)]
